@@ -14,7 +14,9 @@ type c08 struct{}
 
 func init() { register("C08", c08{}) }
 
-func (c08) Gen(tier string, seed int64, emit func([]Ev)) {
+func (c08) Gen(tier string, seed int64, emit0 func([]Ev)) {
+	emit, flush := grouper(emit0, "decode")
+	defer flush()
 	r := rand.New(rand.NewSource(seed))
 	n := 1500
 	if tier == "thorough" {
@@ -94,15 +96,19 @@ func c08Err(err error) string {
 }
 
 func (c08) Exec(h []Ev) []Ev {
+	var held holder
 	for _, e := range h {
 		e["g"] = Ev{}
+		e["earlier_same"] = true
 		e["panic"] = guard(func() {
+			defer func() { e["earlier_same"] = held.same() }()
 			b := GB(e["bytes"])
 			keep := append([]byte(nil), b...)
 			s, err := scte35.NewSCTE35(b)
 			e["err"] = c08Err(err)
 			if err == nil {
 				e["g"] = obsSig(s)
+				defer held.hold(func() string { return jsonOf(obsSig(s)) + jsonOf(B(s.Data())) })
 			}
 			e["input_same"] = bytes.Equal(b, keep)
 		})
